@@ -82,15 +82,41 @@ Qed.
 (* the VARIANT (Accept waits on a full queue for room or for the signal raised by Destroy): the worker blocked inside
    Accept with the queue full; nothing of the shutdown path is enabled - only the environment (the feeder making room)
    could help: the wait depends on a signal that is raised only after the waiter has ended *)
+Lemma q_run_app : forall cfg a b s, q_run cfg s (a ++ b) =
+  match q_run cfg s a with Some s1 => q_run cfg s1 b | None => None end.
+Proof.
+  intros cfg a; induction a as [|e a IH]; intros b s; cbn; [reflexivity|].
+  destruct (q_step cfg s e); [apply IH|reflexivity].
+Qed.
+
+Lemma fill_queue : forall cap n k len kp, len + n <= cap ->
+  q_run (QCFG cap true) (QS (WRun (n + k)) len false kp 0 0) (repq n [QAccept]) =
+  Some (QS (WRun k) (len + n) false (kp + n) 0 0).
+Proof.
+  intros cap n; induction n as [|n IH]; intros k len kp Hle.
+  - cbn. rewrite !Nat.add_0_r. reflexivity.
+  - cbn [repq app Nat.add q_run]. unfold q_step; cbn [q_pc q_len q_closed q_kept q_dropped q_taken qg_cap qg_block].
+    assert (Hlt : Nat.ltb len cap = true) by (apply Nat.ltb_lt; lia). rewrite Hlt.
+    rewrite IH by lia. f_equal. f_equal; lia.
+Qed.
+
+(* for EVERY capacity and every number of chunks above it *)
 Lemma blocking_accept_variant_refuted_lemma :
-  exists cap p evs s,
+  forall cap p, cap < p ->
+  exists evs s,
     q_run (QCFG cap true) (q_init p) evs = Some s /\ q_pc s <> WDestroyed /\ q_closed s = false /\
     q_len s = cap /\
     (forall e, q_own e = true -> q_step (QCFG cap true) s e = None).
 Proof.
-  exists 4, 12, (repq 5 [QAccept]). eexists. split; [vm_compute; reflexivity|].
-  split; [discriminate|]. split; [reflexivity|]. split; [reflexivity|].
-  intros e He. destruct e; try reflexivity. discriminate He.
+  intros cap p Hlt. exists (repq cap [QAccept] ++ [QAccept]).
+  exists (QS (WBlocked (p - cap - 1)) cap false cap 0 0).
+  split.
+  - rewrite q_run_app. unfold q_init. replace p with (cap + S (p - cap - 1)) at 1 by lia.
+    rewrite fill_queue by lia. cbn [Nat.add q_run]. unfold q_step; cbn [q_pc q_len q_closed q_kept q_dropped q_taken qg_cap qg_block].
+    rewrite Nat.ltb_irrefl. reflexivity.
+  - split; [discriminate|]. split; [reflexivity|]. split; [reflexivity|].
+    intros e He. destruct e; try reflexivity; [|discriminate He].
+    unfold q_step; cbn [q_pc q_len q_closed q_kept q_dropped q_taken qg_cap qg_block]. rewrite Nat.ltb_irrefl. reflexivity.
 Qed.
 
 (* ------------------------------------------------------------------------------------------ *)
